@@ -70,3 +70,39 @@ Example C09_nonvacuous :
   fst (disk_get cbytes ctag cteqb cdeser cmac d 1%positive) = Miss /\
   fst (disk_get cbytes ctag cteqb cdeser cmac (fold_left step [DSet _ _ 1%positive (VInt 5)] (disk_empty _ _)) 1%positive) = Hit (VInt 5).
 Proof. vm_compute. split; reflexivity. Qed.
+
+(* ---- cacheable interrupts (runners/async_/superstep.py _is_resuming_interrupt): an interrupt's outcome depends on the run
+        state - a supplied response passes as is - so the cache is bypassed when the caller supplied the response ---- *)
+From HG Require Import Exec Nested CacheInterrupt.
+
+Theorem C09_interrupt_transparent : forall (ckeyT : Type) ckeqb exec (ckey : node -> dict val -> option ckeyT),
+  (forall a b, ckeqb a b = true <-> a = b) ->
+  (forall n st ins n' st' ins' k, resuming n st = false -> resuming n' st' = false ->
+     ckey n ins = Some k -> ckey n' ins' = Some k -> exec n st ins = exec n' st' ins') ->
+  forall c n st ins, cvalid_b ckeyT ckeqb exec ckey c ->
+  fst (exec_cached_b ckeyT ckeqb exec ckey c n st ins) = exec n st ins /\
+  cvalid_b ckeyT ckeqb exec ckey (snd (exec_cached_b ckeyT ckeqb exec ckey c n st ins)).
+Proof. intros. apply cached_call_transparent_b; assumption. Qed.
+Print Assumptions C09_interrupt_transparent.
+
+(* every history of calls sharing one cache, starting from the empty cache, returns what the executor returns *)
+Theorem C09_interrupt_histories : forall (ckeyT : Type) ckeqb exec (ckey : node -> dict val -> option ckeyT),
+  (forall a b, ckeqb a b = true <-> a = b) ->
+  (forall n st ins n' st' ins' k, resuming n st = false -> resuming n' st' = false ->
+     ckey n ins = Some k -> ckey n' ins' = Some k -> exec n st ins = exec n' st' ins') ->
+  forall calls,
+  fst (run_calls ckeyT ckeqb exec ckey [] calls) = map (fun x => match x with (n, st, ins) => exec n st ins end) calls.
+Proof. intros ckeyT ckeqb exec ckey H1 H2 calls. apply history_transparent; [assumption | assumption | apply cvalid_b_empty]. Qed.
+Print Assumptions C09_interrupt_histories.
+
+(* without the bypass the statement is false of the model's own interrupt executor: the second answer is replaced by the
+   first one and an unanswered run completes (the defect repaired by 16c8ea9) *)
+Theorem C09_interrupt_legacy_refuted :
+  let exec := exec_interrupt ft0 in
+  let c1 := snd (CacheProofs.exec_cached positive Pos.eqb exec key1 [] ask (st_with (VStr 1)) ins0) in
+  fst (CacheProofs.exec_cached positive Pos.eqb exec key1 c1 ask (st_with (VStr 2)) ins0) = OOk [(32%positive, VStr 1)] None /\
+  exec ask (st_with (VStr 2)) ins0 = OOk [(32%positive, VStr 2)] None /\
+  (exists p, exec ask st_none ins0 = OPause p) /\
+  fst (CacheProofs.exec_cached positive Pos.eqb exec key1 c1 ask st_none ins0) = OOk [(32%positive, VStr 1)] None.
+Proof. exact legacy_cached_interrupt_refuted. Qed.
+Print Assumptions C09_interrupt_legacy_refuted.
